@@ -48,6 +48,20 @@ Theorem slice_is_token_text :
 Proof. exact SliceProofs.slice_is_token_text. Qed.
 Print Assumptions slice_is_token_text.
 
+(* the line-offset table of FormatContext::new, for every source (CR LF included): the entry of a line is
+   the byte index of its first character *)
+Theorem line_offsets_spec :
+  forall pre rest : list N,
+    has_nl pre = true ->
+    exists v : N,
+      nth_error (line_offsets (pre ++ rest)) (N.to_nat (count_nl pre)) = Some v /\
+      v + byte_len (line_prefix pre) = byte_len pre.
+Proof. exact SliceProofs.line_offsets_spec. Qed.
+Print Assumptions line_offsets_spec.
+
+Example nv_line_offsets_crlf : line_offsets [97; 13; 10; 98; 99; 13; 10] = [0; 3; 7].
+Proof. vm_compute; reflexivity. Qed.
+
 (* `é = 99`: the number is re-read as " 9" *)
 Theorem slice_refuted :
   let pre := [233; 32; 61; 32] in
